@@ -28,12 +28,7 @@ import (
 
 func init() {
 	register("c15_canonical", c15ExtractCanonical)
-	registerFallback("c15_canonical", "C15Canonical.v", "(* Gen/C15Canonical.v — translator tie UNAVAILABLE: tools/go2v (extractor \"c15_canonical\") did not recognise the\n"+
-		"   shape of compose/workflow.go:canonicalTargetPath; the model's own function is re-exported. *)\n"+
-		"From Eino Require Import Base.Util Base.FMUniverse Model.FieldMap Model.FieldMapPromote Model.FieldMapGenLib.\n\n"+
-		"Definition tie_available : bool := false.\n"+
-		"Definition canonical_target_path (env : senv) (pe : penv) (typ : option ty) (path_ : path) : option path :=\n"+
-		"  Some (match typ with Some t => expand env pe t path_ | None => path_ end).\n")
+	registerFallback("c15_canonical", "C15Canonical.v", c15RefCanonical)
 }
 
 type c15caTr struct {
